@@ -51,6 +51,16 @@ theorem findLive_id (st : St) (tid : Nat) (t : Trk) (h : findLive st tid = some 
 theorem findLive_mem (st : St) (tid : Nat) (t : Trk) (h : findLive st tid = some t) : t ∈ st.live :=
   List.mem_of_find?_eq_some h
 
+theorem map_replace_ids (tid : Nat) (t' : Trk) (h : t'.id = tid) (l : List Trk) :
+    (l.map (fun x => if (x.id == tid) = true then t' else x)).map (·.id) = l.map (·.id) := by
+  induction l with
+  | nil => rfl
+  | cons x l ih =>
+    simp only [List.map_cons, ih, List.cons.injEq, and_true]
+    split
+    · rename_i hx; simp only [beq_iff_eq] at hx; simp [h, hx]
+    · rfl
+
 /-- what one pick returns and how it changes the state -/
 theorem applyPick_spec (cfg : Cfg) (scene e : Nat) (st st' : St) (d : Det) (p : Pick) (r : Rec)
     (h : applyPick cfg scene e st d p = some (st', r)) :
@@ -81,18 +91,7 @@ theorem applyPick_spec (cfg : Cfg) (scene e : Nat) (st st' : St) (d : Det) (p : 
         injection hp with h1 h2
         subst h1; subst h2
         refine ⟨t, hf', rfl, rfl, ?_, rfl⟩
-        have : ∀ l : List Trk, (l.map (fun x => if (x.id == tid) = true then
-            ({ t with lastUpd := e, len := t.len + 1, custom := d.custom, obsH := pushBounded t.obsH d.tok cfg.histLen, visual := vis } : Trk)
-            else x)).map (·.id) = l.map (·.id) := by
-          intro l
-          induction l with
-          | nil => rfl
-          | cons x l ih =>
-            simp only [List.map_cons, ih, List.cons.injEq, and_true]
-            split
-            · rename_i hx; simp only [beq_iff_eq] at hx; simp [hid, hx]
-            · rfl
-        split <;> exact this _
+        split <;> exact map_replace_ids _ _ (by simp [hid]) _
       · intro id hp; cases hp
   | fresh id =>
     simp only [Option.some.injEq, Prod.mk.injEq] at h
